@@ -159,6 +159,16 @@ theorem C05_same_point_when_quiet_partial (P : Prog) (nf : Nat) (evs : List Ev)
   obtain ⟨g1, g2, g3, g4, g5, g6, g7, g8, g9, g10, g11, g12, g13, g14, g15⟩ := sh_fields h2
   exact ⟨h1, g12, g9, g1, g10, g6⟩
 
+/-- **the run with pauses is never ahead and never out of order (partial)**: under the same hypotheses, at *every* moment of
+the history the steps executed so far by the run with pauses (functions, arguments, keyword arguments, newest first) are the
+older part of what the reference run has executed: pausing only delays steps, it neither adds, nor drops, nor reorders
+any (and by `C05_same_result_partial` nothing is missing at termination). -/
+theorem C05_never_ahead_partial (P : Prog) (nf : Nat) (evs : List Ev)
+    (hadm : admissible P (init nf) evs = true)
+    (hfuel : fuelOk P (init nf) (unpaused P (init nf) evs) = true) :
+    ∃ later, (run P (init nf) (unpaused P (init nf) evs)).trace = later ++ (run P (init nf) evs).trace :=
+  (C05_transparent_partial P nf evs hadm hfuel).never_ahead
+
 /-- **the reference history is the history without its pause and play requests and without some of its ticks**: it is a
 sublist of the erasure `erasePP evs`, it contains no pause and no play, and its events other than ticks are exactly those
 of `erasePP evs`, in the same order. -/
